@@ -15,6 +15,9 @@
      C08_isolation_split_field_refuted           a split field's summary failure overwrites its parent's cached summary
                                                  (C08_isolation_partial / _frame_partial / _other_object_partial: objects that
                                                  render their own docstring)                                 -- still open
+     C08_field_text_lost_refuted                 a FIELD whose renderer fails is shown as BROKEN: its text is lost
+                                                 (C08_field_failure_partial: it is reported, the body and the other fields
+                                                 are kept; no BROKEN when every field renders)                -- still open
      C08_reported_parse_error_refuted            a parser raising ParseError without recording it is not reported
                                                  (C08_reported_against_object is the _partial: under the parser contract,
                                                  which epytext meets by C08_epytext_meets_contract)          -- oracle contract
@@ -237,6 +240,20 @@ Theorem C08_inherited_to_stan_failure :
     (o <> b -> forall sec, mem_pe sec o (parse_errors (snd r)) = mem_pe sec o (parse_errors st)).
 Proof. exact inherited_to_stan_failure. Qed.
 
+(* Fields (_partial: the full statement "a renderer failure degrades to the original text" is false for fields,
+   C08_field_text_lost_refuted).  For a docstring whose body renders: the body is kept, every rendered field shows
+   its own rendering or BROKEN, a failing field puts the object in parse_errors, and when every field body renders
+   no BROKEN appears. *)
+Theorem C08_field_failure_partial :
+  forall (O : oracles) (c : config) (st : state) (o : oid) (p s : N) (d : text),
+    pdoc st o = Some (PMark p) -> docstring c o = Some d -> to_stan O p = Some s ->
+    let r := format_docstring O c st o in
+    d_body (fst r) = BStan (SMark s) /\
+    d_fields (fst r) = map (field_stan O) (fields_of O p) /\
+    (forall f, In f (fields_of O p) -> to_stan O f = None -> in_parse_errors (snd r) SEC_DOCSTRING o) /\
+    ((forall f, In f (fields_of O p) -> to_stan O f <> None) -> ~ In SBroken (d_fields (fst r))).
+Proof. exact field_failure. Qed.
+
 (* The summary's renderer raising: BROKEN is returned and remembered, nothing is reported (report=False), nothing
    else changes, and the next call returns BROKEN without touching the state. *)
 Theorem C08_summary_fallback :
@@ -387,6 +404,30 @@ Proof.
   - split; [unfold in_parse_errors; vm_compute; discriminate|vm_compute; reflexivity].
 Qed.
 
+(* REFUTED: "the complete original text is still shown" for FIELDS.  The docstring [9] parses to 30 with one
+   rendered field 31 whose renderer raises: the result holds BROKEN for the field and no plain text anywhere --
+   the field's text is lost (it IS reported). *)
+Definition fieldO : oracles :=
+  {| parser := fun _ _ => PR_ok 30 [];
+     ptypes := fun p => PT_ok p [];
+     to_stan := fun p => if p =? 31 then None else Some p;
+     fields_of := fun p => if p =? 30 then [31] else [];
+     var_fields := fun _ => [];
+     summary_node := fun p => SumSome (p + 100);
+     summary_plain := fun _ => SumNone;
+     toc_of := fun _ => TocEmpty |}.
+
+Theorem C08_field_text_lost_refuted :
+  exists (O : oracles) (c : config) (st : state) (o : oid) (t : text),
+    docstring c o = Some t /\ pdoc st o = None /\
+    let r := format_docstring O c st o in
+    d_fields (fst r) = [SBroken] /\ d_body (fst r) <> BStan (SPre t) /\
+    in_parse_errors (snd r) SEC_DOCSTRING o.
+Proof.
+  exists fieldO, exC, st0, 1, [1]. split; [reflexivity|]. split; [reflexivity|]. cbn zeta.
+  split; [vm_compute; reflexivity|]. split; [vm_compute; discriminate|]. unfold in_parse_errors. vm_compute. reflexivity.
+Qed.
+
 (* REFUTED: isolation for split fields.  Object 6 has no docstring; its parsed_docstring was put there by its
    parent 5.  Rendering 6's summary fails in the renderer; format_summary_fallback then overwrites the PARENT's
    cached summary, so the healthy parent's summary becomes "Broken description". *)
@@ -470,6 +511,14 @@ Proof.
   split; [reflexivity|]. split; [reflexivity|]. split; [reflexivity|]. split; [exact ex_gives_up_2|].
   cbn zeta. repeat split; vm_compute; reflexivity.
 Qed.
+
+Example C08_field_hypotheses_satisfiable :
+  let st := snd (ensure_parsed_docstring fieldO exC st0 1) in
+  pdoc st 1 = Some (PMark 30) /\ docstring exC 1 = Some [1] /\ to_stan fieldO 30 = Some 30 /\
+  In 31 (fields_of fieldO 30) /\ to_stan fieldO 31 = None /\
+  (let st' := snd (ensure_parsed_docstring exO exC st0 3) in
+   pdoc st' 3 = Some (PMark 10) /\ to_stan exO 10 = Some 10 /\ (forall f, In f (fields_of exO 10) -> to_stan exO f <> None)).
+Proof. cbn zeta. repeat split; try (vm_compute; reflexivity). left; reflexivity. intros f []. Qed.
 
 Example C08_epytext_hypotheses_satisfiable :
   In (2, true) [(1, false); (2, true); (3, true)] /\
